@@ -7,6 +7,7 @@ id=$1; shift
 src=/tmp/wt_$id/SEED
 [ -d /verif/seeded/$id ] && src=/verif/seeded/$id
 [ -f $src/patch.diff ] || { echo "no patch for $id"; exit 2; }
+if [ -n "$(git -C /repo status --porcelain)" ]; then echo "refusing: /repo has uncommitted changes (the undo step would wipe them); commit them first"; exit 2; fi
 export GOFLAGS=-mod=mod GOPROXY=off GOSUMDB=off GOTOOLCHAIN=local
 ev=/tmp/ev_$id
 git -C /repo worktree remove --force $ev >/dev/null 2>&1
